@@ -194,10 +194,18 @@ def discharge_all(obs, mv):
     t0 = time.time(); sample = pending[:30]
     for ob in sample: discharge(ob, mv)
     if (time.time() - t0) / max(1, len(sample)) * (len(pending) - len(sample)) < 8.0:      # the rest would take < 8 s here
+        # ... by the sample's estimate; the estimate is revised while going on (cheap obligations often come first): after 6 s of serial work with
+        # 50 or more queries left, the remainder goes to the workers after all
+        t1 = time.time(); switched = False
         for ob in obs:
-            if ob.result is None: discharge(ob, mv)
-        return
-    pending = pending[30:]
+            if ob.result is None:
+                discharge(ob, mv)
+                if time.time() - t1 > 6.0 and sum(1 for o in pending if o.result is None) >= 50:
+                    switched = True; break
+        if not switched: return
+        pending = [o for o in pending if o.result is None]
+    else:
+        pending = pending[30:]
     texts = []
     for ob in pending:
         so = z3.Solver(); so.add(*ob.pc); so.add(z3.Not(ob.claim)); texts.append(so.to_smt2())
